@@ -454,6 +454,26 @@ def split_scenarios(ctx, n, seed_off, maxplans):
                 sid = len(scn) + 1
                 scn.append({"id": sid, "decls": apply_plan(padded, plan), "seed": ctx.seed, "variants": 0, "text": False, "plan": plan, "program": gi})
                 group.setdefault(key, []).append(sid)
+    # a dedicated program: one table whose key fields are spread over three blocks of its application (the shape of
+    # fix e99193e), joined and in every order of three files
+    nopos = {"file": "", "line": 0, "col": 0}
+    ish = {"p": "int", "ref": [], "size": [], "opt": False, "wrap": ""}
+
+    def blk(fields):
+        out = [{"k": "app", "name": "A", "long": "", "tags": [], "attrs": [], "pos": nopos},
+               {"k": "type", "name": "T", "kind": "relation", "tags": [], "attrs": [], "pos": nopos}]
+        for n, pk in fields:
+            out.append({"k": "field", "name": n, "sh": ish, "pk": pk, "tags": [], "attrs": [], "pos": nopos})
+        return out + [{"k": "end"}, {"k": "end"}]
+    keys = blk([("a", True), ("b", False)]) + blk([("c", True)]) + blk([("d", False), ("e", True)])
+    plans = [{"files": [0, 0, 0], "imports": [[]], "order": [0]},
+             {"files": [0, 1, 2], "imports": [[1, 2], [], []], "order": [0, 1, 2]},
+             {"files": [0, 1, 2], "imports": [[2, 1], [], []], "order": [0, 2, 1]},
+             {"files": [0, 1, 1], "imports": [[1], []], "order": [0, 1]}]
+    for plan in plans:
+        sid = len(scn) + 1
+        scn.append({"id": sid, "decls": apply_plan(keys, plan), "seed": ctx.seed, "variants": 0, "text": False, "plan": plan, "program": "keys"})
+        group.setdefault("keys", []).append(sid)
     return gen, scn, group
 
 
@@ -461,7 +481,7 @@ def check_c04(ctx):
     quick = ctx.quick()
     core.build_vh(ctx)
     mc = _mc(ctx)
-    gen, scn, group = split_scenarios(ctx, 90 if quick else 1200, 4, 4 if quick else 7)
+    gen, scn, group = split_scenarios(ctx, 120 if quick else 1200, 4, 4 if quick else 7)
     nforms = len(scn)
     events, prints, nev = run_programs(ctx, scn)
     _judge(ctx, "C04", scn, events, prints,
